@@ -33,7 +33,28 @@ Definition expected_classes : list (list N * list (list N) * list (list N) * lis
      [(codes "_expect", 1%N); (codes "parse", 1%N); (codes "_parse_primary", 2%N);
       (codes "_parse_function_call", 1%N)]) ].
 
+(* statement-level pin: the normalised AST (no positions, no docstrings) of every method of the tokenizer and the
+   parser is the one Model.v was written against.  ANY edit of these methods (other than comments / docstrings)
+   invalidates the hand model until it has been re-read: fail closed. *)
+Definition expected_digests : list (list N * list N) :=
+  [ (codes "_ExpressionTokenizer.__init__", codes "b5c14ccd7f5f3cea");
+    (codes "_ExpressionTokenizer.peek", codes "b02b74f66ed62f3d");
+    (codes "_ExpressionTokenizer._skip_whitespace", codes "86955ec533fb87fc");
+    (codes "_ExpressionTokenizer.get_token", codes "85cee52b1ddf56db");
+    (codes "_ExpressionParser.__init__", codes "cf34de8af9a4af47");
+    (codes "_ExpressionParser._advance", codes "48d9cc1174e45406");
+    (codes "_ExpressionParser._expect", codes "6f499aaba7dbb54d");
+    (codes "_ExpressionParser.parse", codes "6c9158540af5c2ef");
+    (codes "_ExpressionParser._parse_expr", codes "e5084ccd64d5139a");
+    (codes "_ExpressionParser._parse_term", codes "d2fe2e3b6ba74a04");
+    (codes "_ExpressionParser._parse_power", codes "b128c33851a0be95");
+    (codes "_ExpressionParser._parse_unary", codes "b8020c3c02a3a5e2");
+    (codes "_ExpressionParser._parse_primary", codes "1e985d9bf601dd1b");
+    (codes "_ExpressionParser._parse_function_call", codes "5ad265d592a70772");
+    (codes "parse_symbolic_expression", codes "469d7ddb7553bcf4") ].
+
 Definition names_eqb := list_eqb name_eqb.
+Definition digest_eqb (a b : list N * list N) : bool := name_eqb (fst a) (fst b) && name_eqb (snd a) (snd b).
 Definition raise_eqb (a b : list N * N) : bool := name_eqb (fst a) (fst b) && N.eqb (snd a) (snd b).
 Definition class_eqb (a b : list N * list (list N) * list (list N) * list (list N * N)) : bool :=
   let '(n1, m1, s1, r1) := a in
@@ -41,7 +62,8 @@ Definition class_eqb (a b : list N * list (list N) * list (list N) * list (list 
   name_eqb n1 n2 && names_eqb m1 m2 && names_eqb s1 s2 && list_eqb raise_eqb r1 r2.
 
 Definition structure_ok : bool :=
-  names_eqb src_top_level expected_top && list_eqb class_eqb src_classes expected_classes.
+  names_eqb src_top_level expected_top && list_eqb class_eqb src_classes expected_classes
+  && list_eqb digest_eqb src_method_digests expected_digests.
 
 Lemma structure_current : structure_ok = true.
 Proof. vm_compute. reflexivity. Qed.
